@@ -260,17 +260,26 @@ def _est(case):
             sigs.add(sig)
             viol.append({"sig": sig, "msg": msg})
 
-    for ys in case["ys"]:
+    from checks.catalog import layouts
+    X_c = X
+    # forms of the same training set: memory layouts, and the dtypes that hold the design exactly
+    forms_all = [("", X_c)] + [(" X stored as: " + nm, v) for nm, v in layouts(X_c)[1:]]
+    if (X_c == numpy.round(X_c)).all():
+        forms_all.append((" X stored as: int64", X_c.astype(numpy.int64)))
+    if (X_c.astype(numpy.float32).astype(numpy.float64) == X_c).all():
+        forms_all.append((" X stored as: float32", X_c.astype(numpy.float32)))
+    for iy, ys in enumerate(case["ys"]):
         y = numpy.array(ys, dtype=numpy.float64)
-        for crit in ("mselin", "simple"):
-            for depth in (1, 2, 3):
-                for msl in (1, 2, 3):
+        forms = forms_all if iy % 27 == 13 else forms_all[:1]
+        for crit, depth, msl, (fdesc, X) in itertools.product(("mselin", "simple"), (1, 2, 3), (1, 2, 3), forms):
+            if True:
+                if True:
                     if 2 * msl > n:
                         continue
                     wopts = [None] if crit == "mselin" else [None, numpy.array([1.0 + (i % 2) for i in range(n)])]
                     for w in wopts:
-                        desc = "design=%s y=%r criterion=%s max_depth=%d min_samples_leaf=%d weights=%s" % (
-                            case["design"], ys, crit, depth, msl, w is not None)
+                        desc = "design=%s y=%r criterion=%s max_depth=%d min_samples_leaf=%d weights=%s%s" % (
+                            case["design"], ys, crit, depth, msl, w is not None, fdesc)
                         X0, y0 = X.copy(), y.copy()
                         try:
                             m = PiecewiseTreeRegressor(criterion=crit, max_depth=depth, min_samples_leaf=msl)
@@ -278,7 +287,7 @@ def _est(case):
                             pred = m.predict(probes)
                             leaves = m.apply(probes)
                         except Exception as e:
-                            bad("raises %s|criterion=%s" % (type(e).__name__, crit), "%s %s" % (e, desc))
+                            bad("raises %s|criterion=%s%s" % (type(e).__name__, crit, ",X not a C-contiguous float64 array" if fdesc else ""), "%s %s" % (e, desc))
                             continue
                         cnt += 1
                         if m.tree_.node_count > 1:
@@ -303,7 +312,7 @@ def _est(case):
                                 exp = numpy.full(len(q), (ww * y[rows]).sum() / ww.sum())
                                 chk = numpy.ones(len(q), dtype=bool)
                             else:
-                                A = numpy.hstack([X[rows], numpy.ones((len(rows), 1))])
+                                A = numpy.hstack([X_c[rows], numpy.ones((len(rows), 1))])
                                 beta, _res, rank, _sv = numpy.linalg.lstsq(A, y[rows], rcond=None)
                                 exp = numpy.hstack([probes[q], numpy.ones((len(q), 1))]) @ beta
                                 # unique only on training rows, or everywhere if full column rank
